@@ -7,6 +7,7 @@ mod pipe;
 mod radix;
 mod router;
 mod tok;
+mod url;
 mod util;
 
 fn main() {
@@ -26,6 +27,7 @@ fn main() {
         "body" => util::run_cases(inp, outp, body::run),
         "tok" => util::run_cases(inp, outp, tok::run),
         "pipe" => util::run_cases(inp, outp, pipe::run_case),
+        "url" => util::run_cases(inp, outp, url::run),
         "act" => util::run_cases(inp, outp, act::run),
         other => {
             eprintln!("harness: unknown driver {}", other);
